@@ -96,6 +96,22 @@ func boundaryCases() []GCase {
 			return obsWith(perf, nil, hist)
 		})})
 	}
+	// one log upkeep, two logs: log A is at quorum at two different check blocks (half of the oracles each), log B at a
+	// check block between them - in the sorted traversal the two versions of A are NOT adjacent, and A is agreed once
+	for _, mid := range []uint64{101, 99, 103} {
+		mid := mid
+		add(GCase{Family: "two-versions-of-a-unit-with-another-unit-between", N: 4, F: 1, Seq: 18, Digest: 1, Obs: nObs(4, func(i int) GObs {
+			a := honest(1, 5000, 1)
+			b := honest(1, 5000, 2)
+			b.Blk = mid
+			if i < 2 {
+				a.Blk = 100
+			} else {
+				a.Blk = 102
+			}
+			return obsWith([]GRes{a, b}, nil, chain(95, 103, 1))
+		})})
+	}
 	// perform data far above what a registry accepts: three disjoint pairs of oracles vouch for ten results of 70 KB
 	// each; every observation is valid and under its size limit, all thirty results are at quorum and far below the cap
 	// of 100 - agreement is by votes, never by a byte budget
